@@ -19,14 +19,14 @@ RESERVED = {
     "memoryview": 15, "self": 16, "cls": 17, "type": 18, "Type": 19, "dict": 20, "str": 21,
     # keywords and names with a meaning for the declaration model (coq/Print/Decl.v)
     "def": 22, "class": 23, "raise": 24, "@": 25, "object": 26, "metaclass": 27, "total": 28, "__slots__": 29,
-    "bound": 30,
+    "bound": 30, "typing": 31,
 }
 # ordinary names (>= 64) that coq/Print/Decl.v fixes
 FIXED = {"staticmethod": 64, "classmethod": 65, "property": 66, "abstractmethod": 67, "coroutine": 68,
          "__new__": 69, "__init_subclass__": 70, "__init__": 71, "__getattr__": 72, "'property'": 73}
 TYPING_POOL = ["Sequence", "Iterable", "Iterator", "Mapping", "MutableSequence", "Awaitable", "Generator",
                "Collection", "Container", "Hashable", "Sized", "Reversible", "AbstractSet", "MutableMapping",
-               "TypeVar", "overload", "final", "Generic", "Protocol"]          # 46 TypeVar, 47 overload, 48 final
+               "TypeVar", "overload", "final", "Generic", "Protocol", "Tuple", "Dict"]          # 46 TypeVar, 47 overload, 48 final
 TYPING_TYPES = TYPING_POOL[:14]      # the members the type generator uses as class names
 
 
